@@ -1,4 +1,7 @@
 import Fcgi.Proofs.E2E
+import Fcgi.Proofs.StrHostileOps
+import Fcgi.Proofs.StrDecomp
+import Fcgi.Proofs.AsyncRead
 /-!
 # End-to-end composition (C07) — part 2: where the stream parser's loop can stop
 
@@ -12,16 +15,20 @@ open Fcgi Fcgi.Req Fcgi.Str Fcgi.Async Fcgi.Run
 
 /-- Nothing more can be parsed without new input: the unparsed bytes are used up, or what is left is
 an incomplete record header. -/
-def Drained (p : Str.Parser) : Prop := p.raw = [] ∨ (p.pay = 0 ∧ p.pad = 0 ∧ p.raw.length < 8)
+def Dry (p : Str.Parser) : Prop := p.raw = [] ∨ (p.pay = 0 ∧ p.pad = 0 ∧ p.raw.length < 8)
 
-theorem Drained.short {p : Str.Parser} (h : Drained p) : p.raw.length < 8 := by
+theorem Dry.short {p : Str.Parser} (h : Dry p) : p.raw.length < 8 := by
   rcases h with h | ⟨_, _, h⟩
   · rw [h]; simp
   · exact h
 
+/-- … or the parser is inside a `GetValues` body whose next pair is incomplete. -/
+def VStall (p : Str.Parser) : Prop :=
+  ∃ v, p.state = .values v ∧ p.raw.length < p.pay ∧ NV.next p.raw = none
+
 /-- Where the loop may stop. -/
 def Shape (dest : Option Nat) (res : Status) (p' : Str.Parser) (r' : Status) : Prop :=
-  Drained p' ∨ (∃ v, p'.state = .values v ∧ p'.raw.length < p'.pay) ∨ r'.streamEnd = true ∨
+  Dry p' ∨ VStall p' ∨ r'.streamEnd = true ∨
   (dest.isSome = true ∧ r'.delivered.length = res.delivered.length + dest.getD 0)
 
 def ShapeI (dest : Option Nat) (res : Status) : Iter → Prop
@@ -131,9 +138,26 @@ theorem parsePayload_shape (p : Str.Parser) (dest : Option Nat) (res : Status) :
         · split at hh
           · cases hh
           · cases hh
-            refine Or.inr (Or.inl ⟨_, rfl, ?_⟩)
-            simp only [List.length_drop]
-            omega
+            have hmin : min p.pay p.raw.length = p.raw.length := by omega
+            have htake : List.take (min p.pay p.raw.length) p.raw = p.raw := by
+              rw [hmin, List.take_length]
+            obtain ⟨c, hc⟩ := C16.rest_suffix p.raw
+            have hlenc : p.raw.length = c.length + (NV.all p.raw).2.length := by
+              have := congrArg List.length hc
+              simpa only [List.length_append] using this
+            have hdrop : List.drop (min p.pay p.raw.length -
+                (NV.all (List.take (min p.pay p.raw.length) p.raw)).2.length) p.raw = (NV.all p.raw).2 := by
+              rw [htake, hmin]
+              have : p.raw.length - (NV.all p.raw).2.length = c.length := by omega
+              rw [this]
+              conv => lhs; rw [hc]
+              exact List.drop_left
+            refine Or.inr (Or.inl ⟨_, rfl, ?_, ?_⟩)
+            · simp only [List.length_drop]
+              omega
+            · show NV.next (List.drop _ p.raw) = none
+              rw [hdrop]
+              exact C16.stops_for_good _
       · simp only [hlt, if_false] at hh
         split at hh
         · cases hh
@@ -204,12 +228,12 @@ theorem loop_shape (p : Str.Parser) (dest : Option Nat) (res : Status) {p' : Str
       | err q e => rw [hit] at h; cases h
       | panic s => rw [hit] at h; cases h
 
-/-- A legal call into a non-empty `dest` that delivers nothing and does not report `stream_end`
-stops with fewer than 8 unparsed bytes or on an incomplete `GetValues` pair. -/
+/-- A legal call into a `dest` it does not fill and that does not report `stream_end` stops with
+nothing left to parse, or on an incomplete `GetValues` pair. -/
 theorem parse_stall {p p' : Str.Parser} {new : Bytes} {n : Nat} {st : Status} (hcap : p.freeStart ≤ p.cap)
-    (hpar : p.parsed = []) (hfree : new.length ≤ p.free) (hn : 0 < n)
+    (hpar : p.parsed = []) (hfree : new.length ≤ p.free)
     (h : p.parse new (some n) = (p', .ok st)) (hse : st.streamEnd = false) (hz : st.stream < n) :
-    Drained p' ∨ ∃ v, p'.state = .values v ∧ p'.raw.length < p'.pay := by
+    Dry p' ∨ VStall p' := by
   have hc := (C03S.counts_exact hcap (Or.inr hpar) hfree h).2.2.1 n rfl
   rw [parse_eq_loop p new (some n) hcap (Or.inr hpar) hfree] at h
   rcases loop_shape _ _ _ h with h1 | h1 | h1 | ⟨_, h2⟩
@@ -219,267 +243,594 @@ theorem parse_stall {p p' : Str.Parser} {new : Bytes} {n : Nat} {st : Status} (h
   · simp only [initStatus, List.length_nil, Option.getD_some] at h2
     omega
 
-/-! ## `poll_input` on a quiet stream (no reply is owed for its noise) -/
+/-! ## Parsers that cannot go on without new input -/
 
-theorem responseRecord_ne (set mc : Nat) : Vars.responseRecord set mc ≠ [] := by
-  simp [Vars.responseRecord, RecordHeader.toBytes]
+def Idle (p : Str.Parser) : Prop := Dry p ∨ VStall p
 
-/-- With no reply owed for the rest of the stream, the parser cannot be waiting inside a
-`GetValues` body. -/
-theorem Sim.no_values {E : Str.Env} {p : Str.Parser} {fut remC : Bytes} (h : Sim E p fut remC [])
-    {v : Nat} (hst : p.state = .values v) (hlt : p.raw.length < p.pay) : False := by
-  obtain ⟨c, pd, rs, ct, _, hc, _, _, _, hro⟩ := h.core
-  rw [hst] at hro
-  have h1 := (List.append_eq_nil_iff.1 hro.symm).1
-  simp only [stateO] at h1
-  split at h1
-  · rename_i hce
-    have : c = [] := by simpa using hce
-    rw [this] at hc
-    simp at hc
-    omega
-  · exact responseRecord_ne _ _ h1
+/-- the reference on an idle parser with nothing more to come: nothing, "more input needed", and
+all of the unparsed bytes stay unread -/
+theorem idle_ref (E : Str.Cfg) {p : Str.Parser} (h : Idle p) :
+    Rem E p [] = ⟨[], [], .more, p.raw⟩ := by
+  unfold Rem
+  rw [List.append_nil]
+  rcases h with (h | ⟨h1, h2, h3⟩) | ⟨v, h1, h2, h3⟩
+  · rw [h]; exact ref_nil E _ _ _
+  · rw [h1, h2]; exact ref_short E _ h3
+  · rw [h1, ref_pay_short E _ _ (by omega) h2]
+    simp only [stateC, partialRest]
+    rw [nvall_stuck h3]
 
-/-- What is fixed while a request's input is read: the simulation data, the request, the buffer size. -/
-structure RCtx where
-  E : Str.Env
-  rq : Request
-  cap : Nat
-
-/-- Read-side state of the `Request` while the handler reads a quiet stream: the simulation
-invariant with nothing owed, nothing queued, nothing buffered, no lock held. -/
-structure RInv (K : RCtx) (r : AReq) (fut remC : Bytes) : Prop where
-  sim : Sim K.E r.sp fut remC []
-  sinv : SInv r.sp
-  req : r.sp.request = K.rq
-  capK : r.sp.cap = K.cap
-  cap8 : 8 ≤ r.sp.cap
-  out : r.sp.output = []
-  par : r.sp.parsed = []
-  lock : r.lock = .none
-  wr : r.writeable = true
-
-theorem Body.len {id s : Nat} {ct : Bytes} {rs : List Spec.Rec} (h : Body id s ct rs) :
-    ct.length ≤ (Spec.serAll rs).length := by
-  induction h with
-  | nil => simp
-  | noise r _ _ ih => rw [serAll_cons]; simp only [List.length_append]; omega
-  | chunk c pad res _ _ _ ih =>
-    rw [serAll_cons]
-    simp only [List.length_append, ser_length]
-    omega
-
-/-- the content still to be delivered sits in the unparsed buffer and the bytes still to be read -/
-theorem RInv.remC_le {K : RCtx} {r : AReq} {fut remC : Bytes} (h : RInv K r fut remC) :
-    remC.length ≤ K.cap + fut.length := by
-  obtain ⟨c, pd, rs, ct, hb, _, _, hw, hrc, _⟩ := h.sim.core
-  have h1 := congrArg List.length hw
-  have h2 := Body.len hb
-  have h3 : (stateC r.sp.state c).length ≤ c.length := by
-    unfold stateC; split <;> simp
-  have h4 := h.sinv.1
-  have h5 := h.capK
-  rw [hrc]
-  simp only [List.length_append, Str.Parser.freeStart] at *
-  omega
-
-theorem pollOutput_quiet {r : AReq} (ho : r.sp.output = []) (hl : r.lock = .none) (m : MutexSt)
-    (t : Transport) : r.pollOutput m t = (r, m, t, .ready) := by
-  simp [AReq.pollOutput, ho, hl]
-
-theorem EndMark.len {id role s : Nat} {tail : Bytes} (h : EndMark id role s tail) : 8 ≤ tail.length := by
-  obtain ⟨e, rest, rfl, _⟩ := h
-  simp only [List.length_append, ser_length]
-  omega
-
-/-- One `parse` call of the read loop. -/
-theorem parse_rinv {K : RCtx} {r : AReq} {new fut remC : Bytes} {n : Nat} (hn : 0 < n)
-    (hi : RInv K r (new ++ fut) remC) (hfree : new.length ≤ r.sp.free) :
-    ∃ p' st remC', r.sp.parse new (some n) = (p', .ok st) ∧ st.delivered ++ remC' = remC ∧
-      st.stream = st.delivered.length ∧
-      RInv K { r with sp := p' } fut remC' ∧
-      (st.streamEnd = true → remC' = [] ∧ p'.pay = 0 ∧ p'.pad = 0 ∧ p'.raw ++ fut = K.E.tail) ∧
-      (st.streamEnd = false → st.stream = 0 → p'.raw.length < 8 ∧ fut ≠ []) ∧
-      (st.streamEnd = false → st.stream < n → Drained p') := by
-  obtain ⟨p', st, remC', remO', hp, hs', hdel, hgr, hse, hlive⟩ :=
-    parse_sim (dest := some n) hi.sim hi.sinv.1 (Or.inr hi.par) hfree
-  have hro : remO' = [] := (List.append_eq_nil_iff.1 hgr).2
-  subst hro
-  have hout : p'.output = [] := by
-    have := (List.append_eq_nil_iff.1 hgr).1
-    simpa [C03S.outGrowth, hp, hi.out] using this
-  have hc := (C03S.counts_exact hi.sinv.1 (Or.inr hi.par) hfree hp).2.2.1 n rfl
-  have ht := C03S.parse_total r.sp new (some n) hi.sinv (Or.inr hi.par) hfree
-  rw [hp] at ht
-  have hd : deliveredOp r.sp (.parse new (some n)) = st.delivered := by simp [deliveredOp, hp]
-  rw [hd] at hdel
-  refine ⟨p', st, remC', hp, hdel, hc.2.2.1.symm,
-    ⟨hs', ht.1, ht.2.2.2.1.trans hi.req, ht.2.2.1.trans hi.capK, ?_, hout, hc.1, hi.lock, hi.wr⟩, ?_, ?_, ?_⟩
-  · show 8 ≤ p'.cap
-    rw [ht.2.2.1]; exact hi.cap8
-  · intro h
-    obtain ⟨a, _, b, c, d⟩ := hse h
-    exact ⟨a, b, c, d⟩
-  · intro h1 h2
-    constructor
-    · rcases parse_stall hi.sinv.1 hi.par hfree hn hp h1 (by omega) with h | ⟨v, hv, hlt⟩
-      · exact h.short
-      · exact (Sim.no_values hs' hv hlt).elim
-    · intro hf
-      have hfull : Full K.E fut := by
-        unfold Full
-        rw [hf]
-        simpa using EndMark.len hs'.endm
-      rcases hlive hfull with h | ⟨n', hn', hl⟩
-      · rw [h1] at h; cases h
-      · cases hn'
-        omega
-  · intro h1 h2
-    rcases parse_stall hi.sinv.1 hi.par hfree hn hp h1 h2 with h | ⟨v, hv, hlt⟩
-    · exact h
-    · exact (Sim.no_values hs' hv hlt).elim
-
-/-- A drained parser does nothing on a call without new input. -/
-theorem drained_parse {p : Str.Parser} (hd : Drained p) (hcap : p.freeStart ≤ p.cap) (hpar : p.parsed = [])
+/-- An idle parser does nothing on a call without new input. -/
+theorem idle_parse {p : Str.Parser} (hd : Idle p) (hcap : p.freeStart ≤ p.cap) (hpar : p.parsed = [])
     (n : Nat) : p.parse [] (some n) = (p, .ok (initStatus p)) := by
   rw [parse_eq_loop p [] (some n) hcap (Or.inr hpar) (by simp), Str.Parser.feed_nil, loop]
   split
   · rfl
   · rename_i hne
-    rcases hd with hd | ⟨hpay, hpad, hlen⟩
+    rcases hd with (hd | ⟨hpay, hpad, hlen⟩) | ⟨v, h1, h2, h3⟩
     · rw [hd] at hne; simp at hne
     · have hit : iter p (some n) (initStatus p) = .stop p (initStatus p) := by
         unfold iter
         simp only [hpay, Nat.lt_irrefl, if_false, hpad, gt_iff_lt]
         exact parseHead_short hlen _ _
       rw [hit]
+    · have hpay : p.pay > 0 := by omega
+      have hmin : min p.pay p.raw.length = p.raw.length := by omega
+      have hit : iter p (some n) (initStatus p) = .stop p (initStatus p) := by
+        unfold iter
+        simp only [if_pos hpay]
+        have hpp : parsePayload p (some n) (initStatus p) = .stop p (initStatus p) := by
+          unfold parsePayload
+          simp only [h1, hmin, List.take_length, nvall_stuck h3, extend_nil, if_pos h2, Nat.sub_self]
+          have a1 : ¬ (0 > p.raw.length ∨ 0 > p.pay) := by omega
+          simp only [if_neg a1, Nat.sub_zero, List.drop_zero, Nat.add_zero]
+          have a2 : (p.pay == 0 && decide (0 < p.raw.length)) = false := by
+            have : (p.pay == 0) = false := by rw [beq_eq_false_iff_ne]; omega
+            rw [this]; rfl
+          simp only [a2, Bool.false_eq_true, if_false]
+          congr 1
+          cases p
+          simp only at h1
+          subst h1
+          rfl
+        rw [hpp]
+      rw [hit]
 
-/-- What `poll_input` returns to a `read` of a quiet stream. -/
-def ReadPost (K : RCtx) (n : Nat) (remC : Bytes) (t : Transport) (r' : AReq) (t' : Transport) : IRes → Prop
-  | .pending => RInv K r' t'.input remC ∧ t'.woken = true ∧ ans t' < ans t
-  | .ready k d => k = d.length ∧ ∃ remC', d ++ remC' = remC ∧ RInv K r' t'.input remC' ∧
-      (0 < k ∨ (remC' = [] ∧ r'.sp.pay = 0 ∧ r'.sp.pad = 0 ∧ r'.sp.raw ++ t'.input = K.E.tail)) ∧
-      (k = n ∨ Drained r'.sp ∨ (remC' = [] ∧ r'.sp.pay = 0 ∧ r'.sp.pad = 0 ∧ r'.sp.raw ++ t'.input = K.E.tail))
+theorem ref_content_le (E : Str.Cfg) : ∀ (n : Nat) (st : SState) (pay pad : Nat) (w : Bytes), w.length ≤ n →
+    (ref E st pay pad w).content.length ≤ w.length := by
+  intro n
+  induction n with
+  | zero =>
+    intro st pay pad w hw
+    have : w = [] := List.length_eq_zero_iff.1 (by omega)
+    subst this
+    rw [ref_nil]; simp
+  | succ n ih =>
+    intro st pay pad w hw
+    have hC : ∀ c : Bytes, (stateC st c).length ≤ c.length := by
+      intro c; unfold stateC; split <;> simp
+    by_cases hp : 0 < pay
+    · by_cases hs : w.length < pay
+      · rw [ref_pay_short E st pad hp hs]; exact hC w
+      · rw [ref_pay_full E st pad hp (by omega)]
+        have h1 := ih st 0 pad (w.drop pay) (by simp only [List.length_drop]; omega)
+        have h2 := hC (w.take pay)
+        simp only [RefOut.pre_content, List.length_append, List.length_drop, List.length_take] at *
+        omega
+    · have hp0 : pay = 0 := by omega
+      subst hp0
+      by_cases hpd : 0 < pad
+      · by_cases hs : w.length < pad
+        · rw [ref_pad_short E st hpd hs]; simp
+        · rw [ref_pad_full E st hpd (by omega)]
+          have h1 := ih st 0 0 (w.drop pad) (by simp only [List.length_drop]; omega)
+          simp only [List.length_drop] at h1
+          omega
+      · have hpd0 : pad = 0 := by omega
+        subst hpd0
+        by_cases h8 : w.length < 8
+        · rw [ref_short E st h8]; simp
+        · obtain ⟨b0, b1, b2, b3, b4, b5, b6, b7, rest, rfl⟩ := cons8_of_len h8
+          rw [ref_hdr]
+          cases hclass E b0 b1 b2 b3 b4 b5 with
+          | stop v => simp
+          | pass st' o =>
+            have h1 := ih st' (be16 b4 b5) b6.toNat rest (by simp only [List.length_cons] at hw; omega)
+            simp only [RefOut.pre_content, List.nil_append, List.length_cons]
+            omega
+
+/-! ## `poll_input` against the reference -/
+
+/-- What is fixed while a request's input stream is read: the reference configuration, the request,
+the buffer size, the whole wire of the stream `X` (what the stream parser is created with ++ what the
+transport still holds), and what the reference makes of it: content `C`, replies `O`, the unread
+rest `U` in front of which the stream ends. -/
+structure RCtx where
+  E : Str.Cfg
+  rq : Request
+  cap : Nat
+  X : Bytes
+  C : Bytes
+  O : Bytes
+  U : Bytes
+
+structure RCtx.OK (K : RCtx) : Prop where
+  ref : refWire K.E K.X = ⟨K.C, K.O, .eos, K.U⟩
+  /-- no prefix of the wire leaves an incomplete `GetValues` pair that fills the buffer -/
+  fits : ∀ G, G <+: K.X → (refWire K.E G).verdict = .more → (refWire K.E G).unread.length < K.cap
+  cap8 : 8 ≤ K.cap
+
+/-- Read-side state of the `Request`: `G` = the bytes of the wire handed to the stream parser so
+far, `fut` = the rest; `dC` = stream bytes delivered so far, `dO` = replies generated so far.  The
+reference on what is still to come is the reference on the whole wire minus `dC` / `dO`, whatever
+comes (`x`). -/
+structure RInv (K : RCtx) (r : AReq) (G fut dC dO : Bytes) : Prop where
+  mt : Match K.E r.sp
+  sinv : SInv r.sp
+  req : r.sp.request = K.rq
+  capK : r.sp.cap = K.cap
+  par : r.sp.parsed = []
+  wire : G ++ fut = K.X
+  hist : ∀ x, refWire K.E (G ++ x) = (Rem K.E r.sp x).pre dC dO
+
+theorem RInv.now {K : RCtx} (hK : K.OK) {r : AReq} {G fut dC dO : Bytes} (h : RInv K r G fut dC dO) :
+    K.C = dC ++ (Rem K.E r.sp fut).content ∧ K.O = dO ++ (Rem K.E r.sp fut).out ∧
+    (Rem K.E r.sp fut).verdict = .eos ∧ (Rem K.E r.sp fut).unread = K.U := by
+  have := h.hist fut
+  rw [h.wire, hK.ref] at this
+  have h1 := congrArg RefOut.content this
+  have h2 := congrArg RefOut.out this
+  have h3 := congrArg RefOut.verdict this
+  have h4 := congrArg RefOut.unread this
+  simp only [RefOut.pre_content, RefOut.pre_out, RefOut.pre_verdict, RefOut.pre_unread] at h1 h2 h3 h4
+  exact ⟨h1, h2, h3.symm, h4.symm⟩
+
+/-- the content still to be delivered sits in the unparsed buffer and the bytes still to be read -/
+theorem RInv.rem_le {K : RCtx} (hK : K.OK) {r : AReq} {G fut dC dO : Bytes} (h : RInv K r G fut dC dO) :
+    K.C.length ≤ dC.length + K.cap + fut.length := by
+  have h1 := (h.now hK).1
+  have h2 := ref_content_le K.E _ r.sp.state r.sp.pay r.sp.pad (r.sp.raw ++ fut) (Nat.le_refl _)
+  have h3 := h.sinv.1
+  have h4 := h.capK
+  rw [h1]
+  unfold Rem
+  simp only [List.length_append, Str.Parser.freeStart] at *
+  omega
+
+theorem RefOut.ext' {A B : RefOut} (h1 : A.content = B.content) (h2 : A.out = B.out)
+    (h3 : A.verdict = B.verdict) (h4 : A.unread = B.unread) : A = B := by
+  cases A; cases B; simp_all
+
+/-- One `parse` call of the read loop. -/
+theorem parse_rinv {K : RCtx} (hK : K.OK) {r : AReq} {G new fut dC dO : Bytes} {n : Nat} (hn : 0 < n)
+    (hi : RInv K r G (new ++ fut) dC dO) (hfree : new.length ≤ r.sp.free) :
+    ∃ p' st o, r.sp.parse new (some n) = (p', .ok st) ∧ st.stream = st.delivered.length ∧ st.stream ≤ n ∧
+      p'.output = r.sp.output ++ o ∧
+      RInv K { r with sp := p' } (G ++ new) fut (dC ++ st.delivered) (dO ++ o) ∧
+      (st.streamEnd = true → dC ++ st.delivered = K.C ∧ dO ++ o = K.O ∧ p'.pay = 0 ∧ p'.pad = 0 ∧
+        p'.raw ++ fut = K.U) ∧
+      (st.streamEnd = false → st.stream < n → Idle p') ∧
+      (st.streamEnd = false → st.stream = 0 → p'.raw.length < K.cap ∧ fut ≠ []) := by
+  have hpt := C03S.parse_total r.sp new (some n) hi.sinv (Or.inr hi.par) hfree
+  have hri : ∀ x, ∃ lost, _ := fun x =>
+    parse_ri (E := K.E) (fut := x) (p := r.sp) (new := new) (dest := some n) hi.mt hi.sinv (Or.inr hi.par) hfree
+  cases hp : r.sp.parse new (some n) with
+  | mk p' pr =>
+    rw [hp] at hpt
+    cases pr with
+    | panic s => exact hpt.elim
+    | err e =>
+      exfalso
+      obtain ⟨lost, _, _, _, hv, _, _, hm⟩ := hri fut
+      rw [hp] at hv hm
+      simp only at hv hm
+      obtain ⟨a, b, c⟩ := hm
+      rw [a, b, ref_atStop c] at hv
+      have := (hi.now hK).2.2.1
+      unfold Rem at this
+      rw [← hv] at this
+      cases this
+    | ok st =>
+      obtain ⟨hs', _, hcap', hreq', _, _, _⟩ := hpt
+      have hc := (C03S.counts_exact hi.sinv.1 (Or.inr hi.par) hfree hp).2.2.1 n rfl
+      obtain ⟨⟨o, ho, _⟩, _⟩ := C03S.counts_exact hi.sinv.1 (Or.inr hi.par) hfree hp
+      have hog : C03S.outGrowth r.sp (.parse new (some n)) = o := by
+        simp only [C03S.outGrowth, hp, ho, List.drop_left]
+      have hav : availOp r.sp (.parse new (some n)) = st.delivered := by simp [availOp, hp]
+      have hist' : ∀ x, refWire K.E ((G ++ new) ++ x) = (Rem K.E p' x).pre (dC ++ st.delivered) (dO ++ o) := by
+        intro x
+        obtain ⟨lost, _, h1, h2, h3, h4, _, hm⟩ := hri x
+        rw [hp] at h1 h2 h3 h4 hm
+        simp only at h1 h2 h3 h4 hm
+        rw [hm.1, List.append_nil, hav] at h1
+        rw [hog] at h2
+        rw [List.append_assoc, hi.hist (new ++ x)]
+        apply RefOut.ext'
+        · simp only [RefOut.pre_content, Rem, List.append_assoc]; rw [← h1]
+        · simp only [RefOut.pre_out, Rem, List.append_assoc]; rw [← h2]
+        · simp only [RefOut.pre_verdict, Rem]; rw [h3]
+        · simp only [RefOut.pre_unread, Rem]; rw [h4]
+      have hmt' : Match K.E p' := by
+        obtain ⟨_, hm', _⟩ := hri fut
+        rw [hp] at hm'; exact hm'
+      have hi' : RInv K { r with sp := p' } (G ++ new) fut (dC ++ st.delivered) (dO ++ o) :=
+        ⟨hmt', hs', hreq'.trans hi.req, hcap'.trans hi.capK, hc.1,
+          by rw [List.append_assoc]; exact hi.wire, hist'⟩
+      refine ⟨p', st, o, rfl, hc.2.2.1.symm, hc.2.2.2, ho, hi', ?_, ?_, ?_⟩
+      · intro hse
+        obtain ⟨lost, _, _, _, _, _, _, hm⟩ := hri fut
+        rw [hp] at hm
+        obtain ⟨a, b, c⟩ := hm.2 hse
+        have hnow := hi'.now hK
+        simp only [Rem] at hnow
+        rw [a, b, ref_atStop c] at hnow
+        simp only [List.append_nil] at hnow
+        exact ⟨hnow.1.symm, hnow.2.1.symm, a, b, hnow.2.2.2⟩
+      · intro h1 h2
+        exact parse_stall hi.sinv.1 hi.par hfree hp h1 h2
+      · intro h1 h2
+        have hidle : Idle p' := parse_stall hi.sinv.1 hi.par hfree hp h1 (by omega)
+        have h0 := hist' []
+        rw [idle_ref K.E hidle, List.append_nil] at h0
+        have hv : (refWire K.E (G ++ new)).verdict = .more := by rw [h0]; rfl
+        have hu : (refWire K.E (G ++ new)).unread = p'.raw := by rw [h0]; rfl
+        constructor
+        · rw [← hu]
+          exact hK.fits _ ⟨fut, by rw [List.append_assoc]; exact hi.wire⟩ hv
+        · intro hf
+          subst hf
+          have hw := hi.wire
+          rw [List.append_nil] at hw
+          rw [hw, hK.ref] at hv
+          cases hv
+
+/-! ## `poll_output` -/
+
+theorem outLoop_ben : ∀ (fuel : Nat) (sp : Str.Parser) (t : Transport) {sp' : Str.Parser} {t' : Transport}
+    {res : ORes}, Ben t → sp.output.length < fuel → outLoop fuel sp t = (sp', t', res) →
+    TStep t t' ∧ (res = .ready ∨ (res = .pending ∧ t'.woken = true ∧ ans t' < ans t)) := by
+  intro fuel
+  induction fuel with
+  | zero => intro sp t sp' t' res _ hf; omega
+  | succ k ih =>
+    intro sp t sp' t' res hb hf h
+    simp only [outLoop] at h
+    split at h
+    · cases h; exact ⟨.refl _, Or.inl rfl⟩
+    · rename_i hne
+      have hne' : sp.output ≠ [] := by simpa using hne
+      split at h
+      · rename_i tw hw
+        cases h
+        obtain ⟨s1, _, _, s4, s5⟩ := write_tstep hb hw
+        exact ⟨s1, Or.inr ⟨rfl, s4, s5⟩⟩
+      · rename_i tw e hw
+        exact (write_tstep hb hw).2.2.elim
+      · rename_i tw hw
+        have := (write_tstep hb hw).2.2.2.2 hne'
+        omega
+      · rename_i tw n hn0 hw
+        obtain ⟨s1, _, _, _, s5⟩ := write_tstep hb hw
+        have hlen : (sp.consumeOutput n).output.length < k := by
+          have := s5 hne'
+          simp only [Str.Parser.consumeOutput, List.length_drop]
+          have : 0 < sp.output.length := List.length_pos_iff.mpr hne'
+          omega
+        obtain ⟨q1, q2⟩ := ih _ _ (hb.step s1) hlen h
+        refine ⟨s1.trans q1, ?_⟩
+        rcases q2 with q2 | ⟨a, b, c⟩
+        · exact Or.inl q2
+        · exact Or.inr ⟨a, b, by have := s1.ans_le; omega⟩
+
+/-- `poll_output` when no `StreamWriter` holds the mutex: never an error; `Pending` only as a
+transient `Pending` of the transport. -/
+theorem pollOutput_ben {r : AReq} {m : MutexSt} {t : Transport} {r' : AReq} {m' : MutexSt}
+    {t' : Transport} {res : ORes} (hl : LockInv r m) (hm : m = none ∨ m = some 0) (hb : Ben t)
+    (h : r.pollOutput m t = (r', m', t', res)) :
+    TStep t t' ∧ (res = .ready ∨ (res = .pending ∧ t'.woken = true ∧ ans t' < ans t)) := by
+  unfold AReq.pollOutput at h
+  split at h
+  · split at h
+    · cases h; exact ⟨.refl _, Or.inr ⟨by
+        -- the debug assertion cannot fire under `LockInv`
+        rename_i he hlk
+        have he' : r.sp.output = [] := by simpa using he
+        have := hl.2 he'
+        simp [this] at hlk, by
+        rename_i he hlk
+        have he' : r.sp.output = [] := by simpa using he
+        have := hl.2 he'
+        simp [this] at hlk, by
+        rename_i he hlk
+        have he' : r.sp.output = [] := by simpa using he
+        have := hl.2 he'
+        simp [this] at hlk⟩⟩
+    · cases h; exact ⟨.refl _, Or.inl rfl⟩
+  · rcases lockPoll_req hl with hq | ⟨_, i, hi⟩
+    · simp only [hq, Bool.not_true, Bool.false_eq_true, if_false] at h
+      rcases ho : outLoop (r.sp.output.length + 1) r.sp t with ⟨sp1, t1, o⟩
+      rw [ho] at h
+      obtain ⟨q1, q2⟩ := outLoop_ben _ _ _ hb (Nat.lt_succ_self _) ho
+      cases o with
+      | ready => cases h; exact ⟨q1, Or.inl rfl⟩
+      | pending =>
+        cases h
+        rcases q2 with q2 | q2
+        · cases q2
+        · exact ⟨q1, Or.inr q2⟩
+      | err e => rcases q2 with q2 | ⟨q2, _⟩ <;> cases q2
+      | panic s => rcases q2 with q2 | ⟨q2, _⟩ <;> cases q2
+    · rcases hm with hm | hm <;> rw [hm] at hi <;> cases hi
+
+/-! ## The read loop of `poll_input` -/
+
+/-- `RInv` only looks at the control state and the unparsed bytes of the stream parser. -/
+theorem RInv.congr {K : RCtx} {r r' : AReq} {G fut dC dO : Bytes} (h : RInv K r G fut dC dO)
+    (e1 : r'.sp.request = r.sp.request) (e2 : r'.sp.stream = r.sp.stream)
+    (e3 : r'.sp.maxConns = r.sp.maxConns) (e4 : r'.sp.state = r.sp.state) (e5 : r'.sp.pay = r.sp.pay)
+    (e6 : r'.sp.pad = r.sp.pad) (e7 : r'.sp.raw = r.sp.raw) (e8 : r'.sp.cap = r.sp.cap)
+    (e9 : r'.sp.parsed = r.sp.parsed) (hs : SInv r'.sp) :
+    RInv K r' G fut dC dO :=
+  ⟨h.mt.of_eq e1 e2 e3, hs, e1.trans h.req, e8.trans h.capK, e9.trans h.par, h.wire,
+    fun x => by rw [h.hist x]; simp only [Rem, e4, e5, e6, e7]⟩
+
+/-- The `Request` between two `poll_input` calls of a `readAll`: `dC` delivered so far, `dO` replies
+generated so far, of which `O1` are on the wire (the log was `L` when the handler started) and the
+rest is queued; the lock is held only while queued replies are being written. -/
+structure RSt (K : RCtx) (L P : Bytes) (r : AReq) (m : MutexSt) (t : Transport) (dC dO : Bytes) : Prop where
+  inv : ∃ G, RInv K r G t.input dC dO
+  lk : LockInv r m
+  mx : m = none ∨ m = some 0
+  /-- `P`: replies generated before this stream was started (an earlier stream of the request) -/
+  log : ∃ O1, t.wlog = L ++ O1 ∧ O1 ++ r.sp.output = P ++ dO
+
+/-- is this the last input stream of the role (`Request::poll_input` then sets `writeable`) -/
+def RCtx.final (K : RCtx) : Bool := (nextInputStream K.E.role (some K.E.s)).isNone
+
+theorem isFinal_of_match {K : RCtx} {r : AReq} (h : Match K.E r.sp) : r.isFinalStream = K.final := by
+  simp only [AReq.isFinalStream, RCtx.final, h.role, h.strm]
+
+/-- the stream parser stands at the end mark: everything delivered, every reply generated -/
+def AtEnd (K : RCtx) (r : AReq) (t : Transport) (dC dO : Bytes) : Prop :=
+  dC = K.C ∧ dO = K.O ∧ r.sp.pay = 0 ∧ r.sp.pad = 0 ∧ r.sp.raw ++ t.input = K.U
+
+/-- What `poll_input` returns to a `read`. -/
+def ReadPost (K : RCtx) (n : Nat) (L P dC : Bytes) (t : Transport) (r' : AReq) (m' : MutexSt)
+    (t' : Transport) : IRes → Prop
+  | .pending => (∃ dO', RSt K L P r' m' t' dC dO') ∧ t'.woken = true ∧ ans t' < ans t
+  | .ready k d => k = d.length ∧ ∃ dO', RSt K L P r' m' t' (dC ++ d) dO' ∧ r'.lock = .none ∧ m' = none ∧
+      (0 < k ∨ AtEnd K r' t' (dC ++ d) dO') ∧ (k = n ∨ Idle r'.sp ∨ AtEnd K r' t' (dC ++ d) dO') ∧
+      (K.final = true → r'.writeable = true)
   | .err _ => False
   | .panic _ => False
 
-/-- **The read loop of `poll_input`** on a benign transport and a quiet stream: it returns the next
-piece of the stream content (or `0` exactly at the end mark), or a transient `Pending`; it never
-fails, writes nothing, and leaves the mutex alone. -/
-theorem inLoop_sim {K : RCtx} {n : Nat} (hn : 0 < n) : ∀ (fuel : Nat) (r : AReq) (new : Bytes)
-    (m : MutexSt) (t : Transport) {remC : Bytes} {r' : AReq} {m' : MutexSt} {t' : Transport} {res : IRes},
-    Ben t → RInv K r (new ++ t.input) remC → new.length ≤ r.sp.free → t.input.length + 2 ≤ fuel →
-    inLoop fuel r new (some n) m t = (r', m', t', res) →
-    TStep t t' ∧ t'.wlog = t.wlog ∧ m' = m ∧ ReadPost K n remC t r' t' res ∧
-    (Drained r.sp → new = [] → ∀ k d, res = .ready k d → t'.input.length < t.input.length) := by
+theorem lockInv_free {r : AReq} (h : r.lock = .none) : LockInv r none := by
+  refine ⟨?_, fun _ => h⟩
+  rw [h]
+  constructor <;> intro x <;> cases x
+
+theorem RInv.consumed {K : RCtx} {r r' : AReq} {G fut dC dO : Bytes} (h : RInv K r G fut dC dO) {k : Nat}
+    (e1 : r'.sp = r.sp.consumeOutput k) : RInv K r' G fut dC dO := by
+  refine h.congr ?_ ?_ ?_ ?_ ?_ ?_ ?_ ?_ ?_ ?_ <;> rw [e1]
+  all_goals first | rfl | exact h.sinv
+
+/-- **The read loop of `poll_input`** on a benign transport: it returns the next piece of the stream
+content (or `0` exactly at the end mark), or a transient `Pending`; it never fails; the replies the
+`parse` calls generate are written (in order) before each transport read. -/
+theorem inLoop_sim {K : RCtx} (hK : K.OK) {n : Nat} (hn : 0 < n) {L P : Bytes} : ∀ (fuel : Nat) (r : AReq)
+    (new : Bytes) (t : Transport) {dC dO : Bytes} {r' : AReq} {m' : MutexSt} {t' : Transport} {res : IRes},
+    Ben t → (∃ G, RInv K r G (new ++ t.input) dC dO) → r.lock = .none → r.sp.output = [] →
+    t.wlog = L ++ (P ++ dO) → new.length ≤ r.sp.free → t.input.length + 2 ≤ fuel →
+    inLoop fuel r new (some n) none t = (r', m', t', res) →
+    TStep t t' ∧ ReadPost K n L P dC t r' m' t' res ∧
+    (Idle r.sp → new = [] → ∀ k d, res = .ready k d → t'.input.length < t.input.length) := by
   intro fuel
   induction fuel with
-  | zero => intro r new m t remC r' m' t' res _ _ _ hf; omega
+  | zero => intro r new t dC dO r' m' t' res _ _ _ _ _ _ hf; omega
   | succ k ih =>
-    intro r new m t remC r' m' t' res hb hi hfree hf h
-    obtain ⟨p', st, remC', hp, hdel, hcnt, hi', hend, hstall, hdrain⟩ := parse_rinv hn hi hfree
+    intro r new t dC dO r' m' t' res hb ⟨G, hi⟩ hlk hout hlog hfree hf h
+    obtain ⟨p', st, o, hp, hcnt, hle, ho, hi', hend, hidle, hstall⟩ := parse_rinv hK hn hi hfree
+    rw [hout, List.nil_append] at ho
     simp only [inLoop, hp] at h
     split at h
     · -- the call delivered something or reached the end mark
       rename_i hc
-      have hwr : ({ r with sp := p' } : AReq).writeable = true := hi.wr
-      have hwr' := hi.wr
-      simp only [hwr', Bool.not_true, Bool.false_and, Bool.false_eq_true, if_false] at h
-      cases h
-      refine ⟨.refl _, rfl, rfl, ⟨hcnt, remC', hdel,
-        ⟨hi'.sim, hi'.sinv, hi'.req, hi'.capK, hi'.cap8, hi'.out, hi'.par, hi'.lock, rfl⟩, ?_, ?_⟩, ?_⟩
-      · by_cases hk : 0 < st.stream
-        · exact Or.inl hk
-        · right
-          have hse : st.streamEnd = true := by
-            simp only [Bool.or_eq_true, decide_eq_true_eq] at hc
-            rcases hc with hc | hc
-            · exact hc
-            · exact absurd hc hk
-          exact hend hse
-      · cases hse : st.streamEnd with
-        | true => exact Or.inr (Or.inr (hend hse))
-        | false =>
-          have hle : st.stream ≤ n :=
-            ((C03S.counts_exact hi.sinv.1 (Or.inr hi.par) hfree hp).2.2.1 n rfl).2.2.2
-          by_cases hlt : st.stream < n
-          · exact Or.inr (Or.inl (hdrain hse hlt))
-          · exact Or.inl (by omega)
-      · intro hd hnew kk dd _
-        exfalso
-        subst hnew
-        rw [drained_parse hd hi.sinv.1 hi.par n] at hp
-        cases hp
-        simp [initStatus, hi.sim.strm] at hc
-    · -- nothing delivered: compress, (nothing to flush), read more
+      have hfin : ({ r with sp := p' } : AReq).isFinalStream = K.final := isFinal_of_match hi'.mt
+      -- the request after the `writeable` update
+      have key : ∀ w : Bool, (K.final = true → w = true) →
+          (({ sp := p', lock := r.lock, writeable := w } : AReq), (none : MutexSt), t,
+            IRes.ready st.stream st.delivered) = (r', m', t', res) →
+          TStep t t' ∧ ReadPost K n L P dC t r' m' t' res ∧
+          (Idle r.sp → new = [] → ∀ k d, res = .ready k d → t'.input.length < t.input.length) := by
+        intro w hw h
+        cases h
+        have hst : RSt K L P { sp := p', lock := r.lock, writeable := w } none t (dC ++ st.delivered) (dO ++ o) :=
+          ⟨⟨G ++ new, hi'.congr rfl rfl rfl rfl rfl rfl rfl rfl rfl hi'.sinv⟩,
+            lockInv_free hlk, Or.inl rfl, ⟨P ++ dO, hlog, by rw [ho, List.append_assoc]⟩⟩
+        have hat : st.streamEnd = true →
+            AtEnd K { sp := p', lock := r.lock, writeable := w } t (dC ++ st.delivered) (dO ++ o) := hend
+        refine ⟨.refl _, ⟨hcnt, dO ++ o, hst, hlk, rfl, ?_, ?_, hw⟩, ?_⟩
+        · by_cases hk : 0 < st.stream
+          · exact Or.inl hk
+          · right
+            have hse : st.streamEnd = true := by
+              simp only [Bool.or_eq_true, decide_eq_true_eq] at hc
+              rcases hc with hc | hc
+              · exact hc
+              · exact absurd hc hk
+            exact hat hse
+        · cases hse : st.streamEnd with
+          | true => exact Or.inr (Or.inr (hat hse))
+          | false =>
+            by_cases hlt : st.stream < n
+            · exact Or.inr (Or.inl (hidle hse hlt))
+            · exact Or.inl (by omega)
+        · intro hd hnew kk dd _
+          exfalso
+          subst hnew
+          rw [idle_parse hd hi.sinv.1 hi.par n] at hp
+          cases hp
+          simp [initStatus, hi.mt.strm] at hc
+      split at h
+      · exact key true (fun _ => rfl) h
+      · rename_i hcond
+        refine key r.writeable (fun hf => ?_) h
+        rw [hfin, hf] at hcond
+        simpa using hcond
+    · -- nothing delivered: compress, flush the replies, read more
       rename_i hc
       simp only [Bool.or_eq_true, decide_eq_true_eq, not_or, Bool.not_eq_true, Nat.not_lt,
         Nat.le_zero_eq] at hc
       obtain ⟨hraw, hne⟩ := hstall hc.1 hc.2
       have hd0 : st.delivered = [] := List.length_eq_zero_iff.1 (by omega)
-      rw [hd0, List.nil_append] at hdel
-      subst hdel
-      have hi2 : RInv K { r with sp := p'.compress } t.input remC' :=
-        ⟨hi'.sim.of_core rfl rfl rfl hi'.sim.core, SInv_compress hi'.sinv, hi'.req, hi'.capK, hi'.cap8,
-          hi'.out, hi'.par, hi'.lock, hi'.wr⟩
-      have hfreepos : 0 < p'.compress.free := by
-        have h8 := hi'.cap8
-        have hpar := hi'.par
-        simp only at h8 hpar
-        simp [Str.Parser.free, Str.Parser.freeStart, Str.Parser.compress, hpar]
-        omega
-      rw [pollOutput_quiet (r := { r with sp := p'.compress }) hi'.out hi'.lock] at h
-      simp only at h
-      split at h
-      · rename_i t1 hr
+      rw [hd0, List.append_nil] at hi'
+      have hi2 : RInv K { r with sp := p'.compress } (G ++ new) t.input dC (dO ++ o) :=
+        hi'.congr rfl rfl rfl rfl rfl rfl rfl rfl rfl (SInv_compress hi'.sinv)
+      have hl2 : LockInv { r with sp := p'.compress } none := lockInv_free hlk
+      rcases hpo : AReq.pollOutput { r with sp := p'.compress } none t with ⟨r3, m3, t3, ores⟩
+      rw [hpo] at h
+      obtain ⟨kk, e1, e2, e3, e4, e5, _, e7, e8⟩ := Async.pollOutput_spec hl2 hpo
+      obtain ⟨b1, b2⟩ := pollOutput_ben hl2 (Or.inl rfl) hb hpo
+      have hout2 : ({ r with sp := p'.compress } : AReq).sp.output = o := ho
+      have hi3 : RInv K r3 (G ++ new) t3.input dC (dO ++ o) := by
+        rw [e4.1]
+        exact hi2.consumed e1
+      have hlog3 : ∃ O1, t3.wlog = L ++ O1 ∧ O1 ++ r3.sp.output = P ++ (dO ++ o) :=
+        ⟨P ++ dO ++ o.take kk, by rw [e3, hlog, hout2]; simp only [List.append_assoc], by
+          rw [e1]
+          show (P ++ dO ++ o.take kk) ++ (p'.compress.output.drop kk) = _
+          rw [show p'.compress.output = o from ho]
+          simp only [List.append_assoc, List.take_append_drop]⟩
+      rcases b2 with rfl | ⟨rfl, bw, ba⟩
+      · -- flushed
+        obtain ⟨f1, f2, f3, f4⟩ := e7 rfl
+        have hm3 : m3 = none := by
+          by_cases ho0 : o = []
+          · exact (f3 (by rw [hout2]; exact ho0)).2.1
+          · exact f4 (by rw [hout2]; exact ho0)
+        subst hm3
+        have hlog3' : t3.wlog = L ++ (P ++ (dO ++ o)) := by
+          obtain ⟨O1, g1, g2⟩ := hlog3
+          rw [f1, List.append_nil] at g2
+          rw [g1, g2]
+        have hfreepos : 0 < r3.sp.free := by
+          have hpar := hi3.par
+          have hcap := hi3.capK
+          rw [e1] at hpar hcap ⊢
+          simp only [Str.Parser.consumeOutput, Str.Parser.compress] at hpar hcap
+          simp [Str.Parser.free, Str.Parser.freeStart, Str.Parser.compress, Str.Parser.consumeOutput, hpar, hcap]
+          omega
+        have hb3 := hb.step b1
+        have hne3 : t3.input ≠ [] := by rw [e4.1]; exact hne
+        simp only at h
+        split at h
+        · rename_i t1 hr
+          have hwl : t1.wlog = t3.wlog := by have := read_wlog t3 r3.sp.free; rwa [hr] at this
+          cases h
+          obtain ⟨hinp, hw | hw⟩ := read_pending hb3 hr
+          · refine ⟨b1.trans (read_tstep hr), ⟨⟨dO ++ o, ⟨⟨G ++ new, by rw [hinp]; exact hi3⟩, e5, Or.inl rfl,
+              ⟨P ++ (dO ++ o), by rw [hwl, hlog3'], by rw [f1, List.append_nil]⟩⟩⟩, hw.1,
+              by have := b1.ans_le; omega⟩, fun _ _ kk dd hx => by cases hx⟩
+          · exact absurd hw.1 hne3
+        · rename_i t1 e hr
+          exact (read_error hb3 hr).elim
+        · rename_i t1 hr
+          obtain ⟨_, _, _, hz⟩ := read_ok_ben hb3 hr
+          rcases hz rfl with hz | hz
+          · omega
+          · exact absurd hz.1 hne3
+        · rename_i t1 bs hbs hr
+          obtain ⟨hin, hwl, hlen, _⟩ := read_ok_ben hb3 hr
+          have hbne : bs ≠ [] := fun hx => hbs (by rw [hx])
+          have hbpos : 0 < bs.length := List.length_pos_iff.mpr hbne
+          have hs1 := read_tstep hr
+          have hlen1 : t1.input.length + 2 ≤ k := by
+            have := congrArg List.length hin
+            rw [e4.1] at this
+            simp only [List.length_append] at this
+            omega
+          obtain ⟨q1, q4, _⟩ := ih r3 bs t1 (hb3.step hs1)
+            ⟨G ++ new, by rw [← hin]; exact hi3⟩ f2 f1 (by rw [hwl, hlog3']) hlen hlen1 h
+          refine ⟨(b1.trans hs1).trans q1, ?_, fun _ _ kk dd _ => ?_⟩
+          · cases res with
+            | pending =>
+              exact ⟨q4.1, q4.2.1, by have := (b1.trans hs1).ans_le; have := q4.2.2; omega⟩
+            | ready k d => exact q4
+            | err e => exact q4
+            | panic s => exact q4
+          · have := q1.tle.input_len
+            have := congrArg List.length hin
+            rw [e4.1] at this
+            simp only [List.length_append] at this
+            omega
+      · -- the transport is busy: `Pending` with the lock held
+        obtain ⟨g1, g2⟩ := e8 (by intro hx; cases hx)
+        have hm3 : m3 = some 0 := by
+          rcases g2 with ⟨g2, _⟩ | ⟨_, _, _, _, i, hi⟩
+          · exact g2
+          · cases hi
         cases h
-        obtain ⟨hinp, hw | hw⟩ := read_pending hb hr
-        · refine ⟨read_tstep hr, by have := read_wlog t p'.compress.free; rwa [hr] at this, rfl, ⟨?_, hw.1, hw.2⟩,
-            fun _ _ kk dd hx => by cases hx⟩
-          rw [hinp]; exact hi2
-        · exact absurd hw.1 hne
-      · rename_i t1 e hr
-        exact (read_error hb hr).elim
-      · rename_i t1 hr
-        obtain ⟨_, _, _, hz⟩ := read_ok_ben hb hr
-        rcases hz rfl with hz | hz
-        · omega
-        · exact absurd hz.1 hne
-      · rename_i t1 bs hbs hr
-        obtain ⟨hin, hwl, hlen, _⟩ := read_ok_ben hb hr
-        have hbne : bs ≠ [] := fun hx => hbs (by rw [hx])
-        have hbpos : 0 < bs.length := List.length_pos_iff.mpr hbne
-        have hs1 := read_tstep hr
-        have hlen1 : t1.input.length + 2 ≤ k := by
-          have := congrArg List.length hin
-          simp only [List.length_append] at this
-          omega
-        obtain ⟨q1, q2, q3, q4, _⟩ := ih { r with sp := p'.compress } bs m t1 (hb.step hs1)
-          (by rw [← hin]; exact hi2) hlen hlen1 h
-        refine ⟨hs1.trans q1, q2.trans hwl, q3, ?_, fun _ _ kk dd _ => ?_⟩
-        · cases res with
-          | pending => exact ⟨q4.1, q4.2.1, by have := hs1.ans_le; have := q4.2.2; omega⟩
-          | ready k d => exact q4
-          | err e => exact q4
-          | panic s => exact q4
-        · have := q1.tle.input_len
-          have := congrArg List.length hin
-          simp only [List.length_append] at this
-          omega
+        exact ⟨b1, ⟨⟨dO ++ o, ⟨⟨G ++ new, hi3⟩, e5, Or.inr hm3, hlog3⟩⟩, bw, ba⟩,
+          fun _ _ kk dd hx => by cases hx⟩
 
 /-- **`poll_input(Some(n))`** for the `read` of `readAll`. -/
-theorem pollInput_sim {K : RCtx} {n : Nat} (hn : 0 < n) {r : AReq} {m : MutexSt} {t : Transport}
-    {remC : Bytes} {r' : AReq} {m' : MutexSt} {t' : Transport} {res : IRes}
-    (hb : Ben t) (hi : RInv K r t.input remC)
+theorem pollInput_sim {K : RCtx} (hK : K.OK) {n : Nat} (hn : 0 < n) {L P : Bytes} {r : AReq} {m : MutexSt}
+    {t : Transport} {dC dO : Bytes} {r' : AReq} {m' : MutexSt} {t' : Transport} {res : IRes}
+    (hb : Ben t) (hs : RSt K L P r m t dC dO)
     (h : r.pollInput (some n) m t = (r', m', t', res)) :
-    TStep t t' ∧ t'.wlog = t.wlog ∧ m' = m ∧ ReadPost K n remC t r' t' res ∧
-    (Drained r.sp → ∀ k d, res = .ready k d → t'.input.length < t.input.length) := by
+    TStep t t' ∧ ReadPost K n L P dC t r' m' t' res ∧
+    (Idle r.sp → ∀ k d, res = .ready k d → t'.input.length < t.input.length) := by
   obtain ⟨n', rfl⟩ : ∃ n', n = n' + 1 := ⟨n - 1, by omega⟩
+  obtain ⟨⟨G, hi⟩, hl, hm, ⟨O1, hlog1, hlog2⟩⟩ := hs
   have hpar := hi.par
   simp only [AReq.pollInput, hpar] at h
-  rw [pollOutput_quiet hi.out hi.lock] at h
-  simp only at h
-  obtain ⟨a1, a2, a3, a4, a5⟩ := inLoop_sim hn _ r [] m t hb (by simpa using hi) (by simp) (Nat.le_refl _) h
-  exact ⟨a1, a2, a3, a4, fun hd => a5 hd rfl⟩
+  rcases hpo : r.pollOutput m t with ⟨r3, m3, t3, ores⟩
+  rw [hpo] at h
+  obtain ⟨kk, e1, e2, e3, e4, e5, _, e7, e8⟩ := Async.pollOutput_spec hl hpo
+  obtain ⟨b1, b2⟩ := pollOutput_ben hl hm hb hpo
+  have hi3 : RInv K r3 G t3.input dC dO := by
+    rw [e4.1]
+    exact hi.consumed e1
+  have hlog3 : ∃ O1', t3.wlog = L ++ O1' ∧ O1' ++ r3.sp.output = P ++ dO :=
+    ⟨O1 ++ r.sp.output.take kk, by rw [e3, hlog1, List.append_assoc], by
+      rw [e1]; simp only [Str.Parser.consumeOutput, List.append_assoc, List.take_append_drop]; exact hlog2⟩
+  rcases b2 with rfl | ⟨rfl, bw, ba⟩
+  · obtain ⟨f1, f2, f3, f4⟩ := e7 rfl
+    have hm3 : m3 = none := by
+      by_cases ho0 : r.sp.output = []
+      · have hm0 : m = none := by
+          rcases hm with hm | hm
+          · exact hm
+          · have := hl.1.2 hm
+            rw [hl.2 ho0] at this; cases this
+        rw [(f3 ho0).2.1, hm0]
+      · exact f4 ho0
+    subst hm3
+    have hlog3' : t3.wlog = L ++ (P ++ dO) := by
+      obtain ⟨O1', g1, g2⟩ := hlog3
+      rw [f1, List.append_nil] at g2
+      rw [g1, g2]
+    simp only at h
+    obtain ⟨q1, q2, q3⟩ := inLoop_sim hK hn (L := L) (P := P) _ r3 [] t3 (hb.step b1) ⟨G, by simpa using hi3⟩ f2 f1 hlog3'
+      (by simp) (Nat.le_refl _) h
+    refine ⟨b1.trans q1, ?_, fun hd kk dd hx => ?_⟩
+    · cases res with
+      | pending => exact ⟨q2.1, q2.2.1, by have := b1.ans_le; have := q2.2.2; omega⟩
+      | ready k d => exact q2
+      | err e => exact q2
+      | panic s => exact q2
+    · have hd3 : Idle r3.sp := by
+        rw [e1]
+        simpa [Idle, Dry, VStall, Str.Parser.consumeOutput] using hd
+      have := q3 hd3 rfl kk dd hx
+      rw [e4.1] at this
+      exact this
+  · obtain ⟨g1, g2⟩ := e8 (by intro hx; cases hx)
+    have hm3 : m3 = some 0 := by
+      rcases g2 with ⟨g2, _⟩ | ⟨_, _, hmm, _, i, hi⟩
+      · exact g2
+      · rcases hm with hm | hm <;> rw [hm] at hi <;> cases hi
+    cases h
+    exact ⟨b1, ⟨⟨dO, ⟨⟨G, hi3⟩, e5, Or.inr hm3, hlog3⟩⟩, bw, ba⟩, fun _ kk dd hx => by cases hx⟩
 
 end Fcgi.E2E
